@@ -559,6 +559,22 @@ pub fn gen_c13(rng: &mut Rng, thorough: bool) -> Vec<Tagged> {
         let tag = format!("early-lr{}-T{}-E{}{}", lr, th, epochs, if with_val { "" } else { "-noval" });
         out.push((tag, Case::Net(spec, NetCmd::Learn { data, val: if with_val { Some((val, th)) } else { None }, batch: 1, epochs })));
     }
+    // the stopping rule looks at the validation LOSS only: trajectories whose validation ACCURACY sets
+    // a record exactly at the epoch at which the stop is due (MAE, rate 0.25, weight 0.25 * epoch hits a
+    // validation target exactly) and trajectories whose accuracy falls
+    for th in 1..=(if thorough { 6 } else { 4 }) {
+        for variant in 0..3 {
+            let mut spec = NetSpec::new(Sh::Flat(1).to_shape());
+            spec.layers.push(LayerSpec::One(Simple::Dense { out: 1, act: Act::Linear, bias: false, dropout: None }));
+            spec.weights = Some(vec![LW::One(W::Dense(t2(1, 1, &[0.0]), None))]);
+            spec.opt = Opt::SGD { lr: 0.25, decay: None };
+            spec.obj = Obj::MAE;
+            let data = vec![(t1(vec![1.0]), t1(vec![100.0]))];
+            let hit = match variant { 0 => th + 1, 1 => th, _ => 1 } as f32;
+            let val = vec![(t1(vec![1.0]), t1(vec![0.25 * hit])), (t1(vec![2.0]), t1(vec![-1.0]))];
+            out.push((format!("early-accuracy-record-at-epoch{}-T{}", hit, th), Case::Net(spec, NetCmd::Learn { data, val: Some((val, th as i32)), batch: 1, epochs: th as i32 + 4 })));
+        }
+    }
     out
 }
 
